@@ -209,6 +209,11 @@ def parent(args) -> int:
             if agg["evaluations"] == 0:
                 inconclusive.append("no cases evaluated")
 
+        for full in [f for f in viol_keys if f.startswith("HARNESS/")]:
+            rec = (agg["discs"].get(full) or [{}])[0]
+            inconclusive.append(f"harness problem {full} ({agg['disc_counts'][full]}x): "
+                                f"{str(rec.get('observed'))[-600:]}")
+        viol_keys = [f for f in viol_keys if not f.startswith("HARNESS/")]
         for full in known_hit:
             p_id, key = full.split("/", 1)
             print(f"KNOWN-FINDING: property={p_id} {key}: {known[(p_id, key)]['what']}"
